@@ -33,6 +33,31 @@ var c09ExemptRoots = map[string]string{
 	"SetCookieValue": "wiring setter (StickySession.SetCookieValue), configuration before serving",
 }
 
+// internalHelperEntry: an exported method of a type in an internal package (not importable by users of
+// the library) all of whose call sites in the module lie in methods of the same type is a helper of
+// that type, not a concurrent entry point (TTLMap.RemoveExpired / RemoveLastUsed are only called by
+// TTLMap.freeSpace, under the map's lock). Decided on the call graph on every run.
+func internalHelperEntry(p *Prog, typ *types.Named, method string) bool {
+	if typ.Obj().Pkg() == nil || !strings.Contains(typ.Obj().Pkg().Path(), "/internal/") {
+		return false
+	}
+	m := p.MethodOf(typ, method)
+	if m == nil {
+		return false
+	}
+	node := p.CallGraph().Nodes[m]
+	if node == nil || len(node.In) == 0 {
+		return false
+	}
+	for _, e := range node.In {
+		caller := enclosingRoot(e.Caller.Func)
+		if recvNamed(caller) != typ {
+			return false
+		}
+	}
+	return true
+}
+
 func hasMutexField(n *types.Named) bool {
 	return len(fieldsOfType(n, func(t types.Type) bool {
 		return typeIs(t, "sync", "Mutex") || typeIs(t, "sync", "RWMutex")
@@ -42,7 +67,9 @@ func hasMutexField(n *types.Named) bool {
 func c09RootTypes(p *Prog) []*types.Named {
 	var out []*types.Named
 	for rel, sp := range p.modPkgs {
-		if strings.HasPrefix(rel, "internal") || rel == "testutils" || rel == "" {
+		// internal packages are helpers (the clock package is test scaffolding), except the collections
+		// package: its TTLMap is a shared, self-locking structure every limiter request goes through
+		if (strings.HasPrefix(rel, "internal") && rel != "internal/holsterv4/collections") || rel == "testutils" || rel == "" {
 			continue
 		}
 		for _, m := range sp.Members {
@@ -120,10 +147,17 @@ func c09Races(p *Prog, r *Report, rule string, roots []*types.Named) int {
 			r.Undecided(rule, tn+": analysis budget", "-", "call-expansion budget exhausted; result would be incomplete")
 		}
 		var acc []Access
+		privateEntry := map[string]bool{}
 		for _, a := range ls.Accesses {
 			base := strings.TrimSuffix(a.Root, "$go")
 			if _, ex := c09ExemptRoots[base]; ex {
 				continue
+			}
+			if _, seen := privateEntry[base]; !seen {
+				privateEntry[base] = internalHelperEntry(p, typ, base)
+			}
+			if privateEntry[base] {
+				continue // not an entry point: see internalHelperEntry
 			}
 			acc = append(acc, a)
 			r.Fn(FName(a.Fn))
